@@ -77,6 +77,11 @@ def parseVal? (tok : String) : Option StdT.Val :=
   | [k, x] => do pure (.int (← parseIntKind? k) (← parseHexNat? x))
   | _ => none
 
+def sharedKeys : List V4 :=
+  [⟨1, 2, 3, 4⟩, ⟨0, 0, 0, 0⟩,
+   ⟨0x0706050403020100, 0x0F0E0D0C0B0A0908, 0x1716151413121110, 0x1F1E1D1C1B1A1918⟩,
+   ⟨0xdbe6d5d5fe4cce2f ^^^ 0xFFFFFFF0, 0xFFFFFFFFFFFFFFFF, 0x8000000000000000, 0x00000000FFFFFFFF⟩]
+
 def writesStr (ws : List (List (BitVec 8))) : String :=
   if ws.isEmpty then "nowrites" else "|".intercalate (ws.map bytesHex)
 
@@ -84,6 +89,13 @@ def writesStr (ws : List (List (BitVec 8))) : String :=
 def parseOp (env : Env) (tgt : StdT.Target) (line : String) : Option (Option Op × String) :=
   match line.trimAscii.toString.splitOn " " with
   | ["reset"] => some (some .reset, "")
+  | ["shone", slot, v] => do
+    -- `hash_one` on one of the process-wide shared builders (fixed keys, see harness/common/exec.rs)
+    let k ← (sharedKeys[slot.toNat?.getD 99]?); let val ← parseVal? v
+    pure (some (.hashOne k (StdT.writes tgt val)), "")
+  | ["shbh", hs, slot] => do
+    let h ← hs.toNat?; let k ← (sharedKeys[slot.toNat?.getD 99]?)
+    pure (some (.new h .auto false k), "")
   | ["hashone", a, b, c, d, v] => do
     let k ← parseKey? a b c d; let val ← parseVal? v
     pure (some (.hashOne k (StdT.writes tgt val)), "")
